@@ -249,7 +249,7 @@ def run(tier):
   rep.bounds(rows=n, max_shards=3, compositions=len(compositions(n, 3)), metrics=[s.name for s in specs],
              label_domain='{0,1,2}', note='every composition of the rows into <=3 shards x batches, incl. empty shards; NaN pattern decided per element (2^n case split) for NaN-capable metrics')
   rep.outside('floating-point rounding (reals are exact)', '+-inf intermediate values (paths cut and counted in paths_cut_outside_model)',
-              'text metrics over arbitrary strings (covered only for texts of <=3 words over a 3-word vocabulary, words chosen by symbolic ints that are concretised per path)', 'FixedSizeSample.add (Algorithm L needs exp/log/floor of RNG draws); its merge IS covered with directly constructed reservoirs and a nondeterministic RNG stub',
+              'text metrics over arbitrary strings (covered only for texts of <=3 solver-chosen words over a 3-word vocabulary, plus one wide spec with 10 fixed words and 2 solver-chosen words per text; words chosen by symbolic ints that are concretised per path)', 'FixedSizeSample.add (Algorithm L needs exp/log/floor of RNG draws); its merge IS covered with directly constructed reservoirs and a nondeterministic RNG stub',
               'row counts beyond the bound', 'empty batches passed to add() (documented as non-vacant input)')
   rep.assume('numpy facade (vf/symx.py NpFacade) is equivalent to numpy on the calls made - validated per job against real numpy on random constants (translator_validation)',
              'z3 sound for QF_NRA/LIA', 'sqrt/log are uninterpreted with sign/square axioms')
